@@ -599,3 +599,32 @@ func PrepareSeams(p *core.Program) {
 	}
 	flow.SetSeams(out)
 }
+
+// composesProvers: fn calls another method of its own receiver type that returns (*Proof-like, error) — a composition such
+// as ProveInsertionChecked = ProveInsertion ≺ VerifyInsertion. The prover rules apply to the method that builds the
+// witness, not to what is layered on top of it.
+func composesProvers(fn *ssa.Function) bool {
+	if fn == nil || fn.Signature.Recv() == nil {
+		return false
+	}
+	rt := namedOf(fn.Signature.Recv().Type())
+	for _, b := range fn.Blocks {
+		for _, in := range b.Instrs {
+			c, ok := in.(*ssa.Call)
+			if !ok {
+				continue
+			}
+			callee := c.Common().StaticCallee()
+			if callee == nil || callee == fn || callee.Signature.Recv() == nil || namedOf(callee.Signature.Recv().Type()) != rt || !core.InRepo(pkgPathOf(callee)) {
+				continue
+			}
+			if len(c.Common().Args) == 0 || c.Common().Args[0] != ssa.Value(fn.Params[0]) {
+				continue
+			}
+			if witnessCircuitType(callee) != nil {
+				return true
+			}
+		}
+	}
+	return false
+}
